@@ -213,3 +213,37 @@ Definition impl_forms_ctx (i : binfo) : bool := css_forms_ctx i || bclip i.
 (* 'z-index' applies to positioned boxes only (CSS 2.1 9.9.1) *)
 Definition css_level (i : binfo) : Z :=
   if bpos i then match bz i with Some k => k | None => 0%Z end else 0%Z.
+
+(* ------------------------------------------------------------------ well-shaped trees *)
+(* The shape layout gives to any box tree (hypothesis of the theorems of
+   Properties/C16.v, evaluated on every case by Check/C16.v):
+     W0 only parent boxes have children,
+     W1 the in-flow children of a box are all line boxes, or none is,
+     W2 the in-flow children of a line box / inline box are inline boxes,
+        text or inline replaced boxes (inline-blocks being atomic). *)
+
+Definition kept (c : box) : bool :=
+  match cl impl_forms_ctx c with CFlow | CAtomic => true | _ => false end.
+Definition flow_line (c : box) : bool :=
+  match cl impl_forms_ctx c with CFlow => is_linebox (bkind (binfo_of c)) | _ => false end.
+Definition inline_ok (c : box) : bool :=
+  match cl impl_forms_ctx c with
+  | CFlow => match bkind (binfo_of c) with
+             | KInline | KText | KInlineReplaced => true
+             | _ => false
+             end
+  | _ => true
+  end.
+
+Fixpoint wf_shape (b : box) : bool :=
+  match b with
+  | Box i cs =>
+    (* W0: only parent boxes have children *)
+    (is_parent (bkind i) || match cs with [] => true | _ => false end)
+    (* W1: a box has only line boxes as in-flow children, or none *)
+    && (forallb flow_line (filter kept cs) || forallb (fun c => negb (flow_line c)) (filter kept cs))
+    (* W2: line and inline boxes contain inline-level boxes *)
+    && (negb (is_line (bkind i)) || forallb inline_ok cs)
+    && forallb wf_shape cs
+  end.
+
